@@ -339,7 +339,8 @@ class Body:
             return "_"
         sd = self.single_def(l)
         if sd is None:
-            return "_t:" + self.local_ty(l)
+            import re
+            return "_t:" + re.sub(r"\{closure@[^}]*\}", "{closure}", self.local_ty(l))
         b, i, kind, payload = sd
         if kind == "call":
             return self.call_str(payload, depth + 1)
